@@ -1,4 +1,4 @@
-import Proofs.LedgerReach
+import Proofs.Reachable
 /-!
 # C03 — a transaction is sealed in at most one vertex per ledger; the index is exact
 
@@ -74,7 +74,7 @@ def b2 : Book := (b1.createLeaf t1 [1] [] v1).1
 
 theorem b2_reachable : Reachable b2 :=
   Reachable.createLeaf t1 [1] [] v1
-    (Reachable.genesis (b := b0) (recv := "w") (spc := ⟨10, 0⟩) (v := g) (v' := g) (Reachable.init "n") rfl rfl rfl rfl rfl)
+    (Reachable.genesis (b := b0) (recv := "w") (spc := ⟨10, 0⟩) (v := g) (v' := g) (Reachable.init "n") rfl rfl rfl rfl rfl rfl)
     rfl
 
 example : b2.verts.map (·.hash) = [1, 3] ∧ b2.index = [(2, 1), (4, 3)] ∧ b2.edges = [(1, 3)] :=
